@@ -55,4 +55,22 @@ for its size. -/
 theorem size_limit (cfg : Cfg) (size : Nat) : sizeOk cfg size = true ↔ size ≤ cfg.maxSize := by
   simp [sizeOk]
 
+/-- C17.5  the letter case of the recipient's domain never matters: two spellings of one address pass the same checks and
+are filed in the same store (the local part is taken as written). -/
+theorem domain_case_irrelevant (cfg : Cfg) (dir : Dir) (count : Nat) (l d d' : Bytes) (hd : 64 ∉ d) (hd' : 64 ∉ d')
+    (h : toLower d = toLower d') :
+    rcptWire cfg dir count (l ++ 64 :: d) = rcptWire cfg dir count (l ++ 64 :: d') ∧
+    ownerWire dir (l ++ 64 :: d) = ownerWire dir (l ++ 64 :: d') := by
+  unfold rcptWire ownerWire
+  rw [lowerDomain_at l d hd, lowerDomain_at l d' hd', h]
+  exact ⟨rfl, rfl⟩
+
+/-- …and the store is the one of the lower-case spelling: `alice@Example.COM` is `alice` of `example.com`, accepted under
+`allowed_domains: [example.com]` (the case that used to be refused, formerly finding C17-F2). -/
+theorem domain_case_example :
+    ownerWire ⟨fun _ _ => false, fun _ _ => false, fun _ => false⟩ (b!"alice@Example.COM") = some (.user (b!"alice") (b!"example.com")) ∧
+    rcptWire ⟨[b!"example.com"], false, 3, 1000, false, 0, b!"INBOX"⟩ ⟨fun _ _ => false, fun _ _ => false, fun _ => false⟩ 0 (b!"alice@Example.COM") = 250 ∧
+    rcptWire ⟨[b!"example.com"], false, 3, 1000, false, 0, b!"INBOX"⟩ ⟨fun _ _ => false, fun _ _ => false, fun _ => false⟩ 0 (b!"alice@example.org") = 550 := by
+  decide
+
 end Raven.Props.C17
